@@ -1,10 +1,62 @@
-(* C20 -- isoparse never misreads.
+(* C20 -- isoparse never misreads: accepted text is an ISO-8601 spelling of the result; every
+   other input is rejected with ValueError.
    Statements only; proofs are in iso/IsoThm*.v over the hand-written model iso/IsoModel.v
-   (tied to /repo/src/dateutil/parser/isoparser.py by harness/check_C20.py). *)
+   (tied to /repo/src/dateutil/parser/isoparser.py by harness/check_C20.py).
+   [iso_denotes] / [date_denotes] / [time_denotes] / [tzstr_denotes] are the grammar-style
+   recognisers of iso/IsoSpec.v; [lift None = Err ValueError], [lift (Some v) = Ok v]. *)
 From Coq Require Import ZArith List Bool.
-From V Require Import base.Cal iso.IsoBase iso.IsoModel iso.IsoSpec iso.IsoThm iso.IsoThmTz iso.IsoThmTime.
+From V Require Import base.Cal iso.IsoBase iso.IsoModel iso.IsoSpec iso.IsoThm iso.IsoThmTz iso.IsoThmTime
+                      iso.IsoThmMain iso.IsoThmRender iso.IsoThmConverse.
 Import ListNotations.
 Open Scope Z_scope.
+
+(* soundness: whatever isoparse returns is what the recogniser reads from the string
+   (all strings, all configured separators) *)
+Theorem C20_isoparse_sound : forall sep s v,
+  isoparse sep s = Ok v -> iso_denotes sep s = Some v.
+Proof. exact isoparse_sound. Qed.
+Print Assumptions C20_isoparse_sound.
+
+(* completeness: every string the recogniser reads is accepted with that value *)
+Theorem C20_isoparse_complete : forall sep s v,
+  iso_denotes sep s = Some v -> isoparse sep s = Ok v.
+Proof. exact isoparse_complete. Qed.
+Print Assumptions C20_isoparse_complete.
+
+(* both at once, including the error side: model = recogniser as functions *)
+Theorem C20_isoparse_equiv : forall sep s, isoparse sep s = lift (iso_denotes sep s).
+Proof. exact isoparse_equiv. Qed.
+Print Assumptions C20_isoparse_equiv.
+
+(* no exception class other than ValueError (in particular no OverflowError, and the loop of
+   _parse_isotime never runs out of fuel), also through the constructor isoparser(sep) *)
+Theorem C20_isoparse_only_valueerror : forall sep s e, isoparse sep s = Err e -> e = ValueError.
+Proof. exact isoparse_only_valueerror. Qed.
+Print Assumptions C20_isoparse_only_valueerror.
+
+Theorem C20_isoparser_only_valueerror : forall sep s e,
+  isoparser_isoparse sep s = Err e -> e = ValueError.
+Proof. exact isoparser_init_only_valueerror. Qed.
+Print Assumptions C20_isoparser_only_valueerror.
+
+(* the three auxiliary entry points: same equivalence, same single exception class *)
+Theorem C20_parse_isodate_equiv : forall s, parse_isodate s = lift (date_denotes s).
+Proof. exact parse_isodate_equiv. Qed.
+Print Assumptions C20_parse_isodate_equiv.
+
+Theorem C20_parse_isotime_equiv : forall s, parse_isotime s = lift (time_denotes s).
+Proof. exact parse_isotime_equiv. Qed.
+Print Assumptions C20_parse_isotime_equiv.
+
+Theorem C20_parse_tzstr_equiv : forall s z, parse_tzstr s z = lift (tzstr_denotes z s).
+Proof. exact parse_tzstr_equiv. Qed.
+Print Assumptions C20_parse_tzstr_equiv.
+
+Theorem C20_aux_only_valueerror : forall s z e,
+  (parse_isodate s = Err e -> e = ValueError) /\ (parse_isotime s = Err e -> e = ValueError) /\
+  (parse_tzstr s z = Err e -> e = ValueError).
+Proof. exact aux_only_valueerror. Qed.
+Print Assumptions C20_aux_only_valueerror.
 
 (* non-ASCII text (any code point / byte >= 128 anywhere) is rejected with ValueError by all
    four entry points, and denotes nothing *)
@@ -16,12 +68,64 @@ Theorem C20_non_ascii_rejected : forall sep s,
 Proof. exact non_ascii_rejected_lemma. Qed.
 Print Assumptions C20_non_ascii_rejected.
 
-(* time-only and offset-only entry points: the model returns exactly what the recogniser reads
-   (soundness AND completeness), and ValueError for everything else *)
-Theorem C20_parse_isotime_equiv : forall s, parse_isotime s = lift (time_denotes s).
-Proof. exact parse_isotime_equiv. Qed.
-Print Assumptions C20_parse_isotime_equiv.
+(* "accepted text is an ISO-8601 spelling of the result": whatever isoparse accepts IS the rendering,
+   in one of the supported forms (render_iso of IsoSpec.v Part B: fixed-width digit fields, consistent
+   separators, a single separator byte equal to the configured one, supported offset form), of a valid
+   date and time, and the value returned is the value that rendering denotes -- the datetime itself, or
+   for the hour-24 spelling midnight of the following day.  (Fraction digits beyond microseconds are
+   free: '24:00:00.0000009' is read as 24:00.) *)
+Theorem C20_accepted_is_rendering : forall sep s v, isoparse sep s = Ok v ->
+  exists f o y m d h mi sec us,
+    wf_fmt f sep o = true /\ valid_ymd y m d = true /\
+    s = render_iso f (y, m, d, h, mi, sec, us) o /\
+    ((valid_hmsu h mi sec us = true /\ v = expected f (y, m, d, h, mi, sec, us) o) \/
+     (h = 24 /\ mi = 0 /\ sec = 0 /\ us = 0 /\ f_time f <> None /\ expected_2400 (y, m, d) o = Some v)).
+Proof. exact isoparse_accepts_only_renderings. Qed.
+Print Assumptions C20_accepted_is_rendering.
 
-Theorem C20_parse_tzstr_equiv : forall s z, parse_tzstr s z = lift (tzstr_denotes z s).
-Proof. exact parse_tzstr_equiv. Qed.
-Print Assumptions C20_parse_tzstr_equiv.
+Theorem C20_aux_accepted_is_rendering :
+  (forall s y m d, parse_isodate s = Ok (y, m, d) ->
+     exists f, valid_ymd y m d = true /\ s = render_date f y m d /\ trunc_date f y m d = (y, m, d)) /\
+  (forall s v, parse_isotime s = Ok v ->
+     exists ts o h mi sec us,
+       wf_tspec ts = true /\ wf_off o = true /\ s = render_time ts h mi sec us ++ render_off o /\
+       trunc_time ts h mi sec us = (h, mi, sec, us) /\ clock_ok h mi sec us = true /\
+       v = (if h =? 24 then 0 else h, mi, sec, us, tz_of o)) /\
+  (forall s tz, parse_tzstr s true = Ok tz ->
+     exists o, o <> ONone /\ wf_off o = true /\ s = render_off o /\ tz = tz_of o).
+Proof.
+  exact (conj parse_isodate_accepts_only_renderings
+        (conj parse_isotime_accepts_only_renderings parse_tzstr_accepts_only_renderings)).
+Qed.
+Print Assumptions C20_aux_accepted_is_rendering.
+
+(* a separator other than the configured one is rejected, whatever follows *)
+Theorem C20_wrong_separator_rejected : forall x f y m d c t,
+  valid_ymd y m d = true -> complete f = true -> (f = FOrdB -> is_digit c = false) -> c <> x ->
+  isoparse (Some x) (render_date f y m d ++ c :: t) = Err ValueError.
+Proof. exact wrong_separator_rejected. Qed.
+Print Assumptions C20_wrong_separator_rejected.
+
+(* non-vacuity: concrete strings on both sides of each statement *)
+Example C20_ex_accept :
+  isoparse None (map Z.of_nat [50;48;49;52;45;87;48;49;45;49;84;49;50;58;51;48;43;48;53;58;51;48])%nat
+  = Ok (2013, 12, 30, 12, 30, 0, 0, TzOff 19800).          (* '2014-W01-1T12:30+05:30' *)
+Proof. vm_compute. reflexivity. Qed.
+Example C20_ex_reject_underscore :
+  isoparse None (map Z.of_nat [50;95;49;52])%nat = Err ValueError          (* '2_14' *)
+  /\ iso_denotes None (map Z.of_nat [50;95;49;52])%nat = None.
+Proof. vm_compute. split; reflexivity. Qed.
+Example C20_ex_reject_wrong_sep :                                       (* '2014-01-01 12' with sep='T' *)
+  isoparse (Some 84) (map Z.of_nat [50;48;49;52;45;48;49;45;48;49;32;49;50])%nat = Err ValueError
+  /\ isoparse (Some 32) (map Z.of_nat [50;48;49;52;45;48;49;45;48;49;32;49;50])%nat
+     = Ok (2014, 1, 1, 12, 0, 0, 0, TzNone).
+Proof. vm_compute. split; reflexivity. Qed.
+Example C20_ex_non_ascii : exists c, In c [50;48;49;52;233] /\ 128 <= c.
+Proof. exists 233. split; [cbn; tauto | discriminate]. Qed.
+Example C20_ex_garbage :                       (* '2014-01-01T12:30Zx' and ' 2014-01-01' *)
+  isoparse None (map Z.of_nat [50;48;49;52;45;48;49;45;48;49;84;49;50;58;51;48;90;120])%nat = Err ValueError /\
+  isoparse None (map Z.of_nat [32;50;48;49;52;45;48;49;45;48;49])%nat = Err ValueError.
+Proof. exact trailing_garbage_rejected. Qed.
+Example C20_ex_wrong_sep_hyps :
+  valid_ymd 2014 1 1 = true /\ complete FCalX = true /\ 32 <> 84.
+Proof. repeat split; discriminate. Qed.
